@@ -407,6 +407,43 @@ def c09g_batch(ctx):
                 ctx.fail(o, Site(b, 0, 0), "%s skips `%s`: those writes are never %s" % (fn, f, "persisted" if fn.endswith("write_to_db") else "un-pinned / flushed from the staging log"))
 
 
+def c09g_order(ctx):
+    """Operations migrate from the staging log to the store (commit, then flush of the log).  A reader that merges both
+    must sample the *source* first: staging snapshot, then store.  The other way round an operation that is committed and
+    flushed between the two samples is in neither — a staged insert disappears, a staged remove comes back."""
+    prog = ctx.prog
+    o = ctx.ob("C09.g", "key-of-set/staging-sampled-before-the-store", "K1+K2",
+               "CacheKeyOfSetMap::get_entry snapshots the staging log on every path before it returns, and get never snapshots after scanning the store")
+    ge = ctx.touch(prog.coroutine_of("CacheKeyOfSetMap::get_entry"))
+    snaps = ge.calls_to(r"CacheKeyOfSetMap::<K, C, Db>::get_staging_snapshot$")
+    lookups = ge.calls_to(r"tiny_lfu::TinyLFU::<K, V, L>::get$")
+    o.sites = len(snaps) + len(lookups)
+    if not snaps:
+        ctx.fail(o, Site(ge, 0, 0), "get_entry does not snapshot the staging log")
+    else:
+        bad = ge.must_pass([0], [s_.bb for s_ in snaps])
+        if bad:
+            ctx.fail(o, Site(ge, bad[0], 0), "get_entry can return without a staging snapshot taken before the cache / store were consulted")
+        for l_ in lookups:
+            if not any(ge.site_dominates(s_, l_) for s_ in snaps):
+                ctx.fail(o, l_, "get_entry consults the cache before it snapshots the staging log")
+    g = ctx.touch(prog.coroutine_of("<CacheKeyOfSetMap as KeyOfSetMap>::get"))
+    scans = g.calls_to(r"KvDatabase::scan_members$")
+    o.sites += len(scans)
+    if not scans:
+        ctx.fail(o, Site(g, 0, 0), "anchor missing: the store scan of the TooLarge path in get")
+    # snapshot sites in get itself or inside closures it builds
+    late = list(g.calls_to(r"CacheKeyOfSetMap::<K, C, Db>::get_staging_snapshot$"))
+    for c in prog.bodies.values():
+        if c.parent == g.key and c.calls_to(r"CacheKeyOfSetMap::<K, C, Db>::get_staging_snapshot$"):
+            late += g.assigns(lambda st, c=c: st["rv"]["k"] == "agg" and st["rv"].get("ak") in ("closure", "coroutine") and st["rv"].get("def") == c.key)
+    for sc in scans:
+        r = g.reachable([sc.bb])
+        for t in late:
+            if t.bb in r:
+                ctx.fail(o, t, "get samples the staging log after it opened the store scan: an operation committed and flushed in between is missing from both")
+
+
 def c09g_staging(ctx):
     prog = ctx.prog
     # ---- a staging snapshot first applies the deferred messages
@@ -459,6 +496,7 @@ def c09g_staging(ctx):
 def run(ctx):
     ctx.run_clause("C09.g", c09g_batch)
     ctx.run_clause("C09.g", c09g_staging)
+    ctx.run_clause("C09.g", c09g_order)
     ctx.run_clause("C09.a", c09a)
     ctx.run_clause("C09.b", c09b)
     ctx.run_clause("C09.c", c09c)
